@@ -162,6 +162,244 @@ theorem C17_end2end (O : HashOracle) (s k q chal : Bytes) (cfg : SuiteConfig) (i
     generateOCRA O s cfg { i with challenge := chal } = .ok (Spec.ocra O.hmac k cfg { i with challenge := chal }) :=
   Props.C05.C05_eq_rfc O s k cfg _ hs hv hi
 
+def isHexChar (c : UInt8) : Bool := (unhex c).isSome
+
+theorem unhex_lt (c : UInt8) (v : Nat) (h : unhex c = some v) : v < 16 := by
+  unfold unhex at h
+  split at h
+  · injection h with h; omega
+  · split at h
+    · injection h with h; omega
+    · split at h
+      · injection h with h; omega
+      · cases h
+
+/-- `hex.DecodeString` on success: the bytes spell the same number, two digits per byte -/
+theorem hexDecode_value : ∀ (s b : Bytes), hexDecode s = some b →
+    (∀ init : Nat, b.foldl (fun n x => n * 256 + x.toNat) init = s.foldl (fun n c => n * 16 + (unhex c).getD 0) init) ∧
+    2 * b.length = s.length
+  | [], b, h => by simp [hexDecode] at h; subst h; simp
+  | [_], b, h => by simp [hexDecode] at h
+  | h :: l :: rest, b, hb => by
+    unfold hexDecode at hb
+    cases ha : unhex h with
+    | none => simp [ha] at hb
+    | some a =>
+      cases hl : unhex l with
+      | none => simp [ha, hl] at hb
+      | some b' =>
+        cases hr : hexDecode rest with
+        | none => simp [ha, hl, hr] at hb
+        | some r =>
+          simp only [ha, hl, hr] at hb
+          injection hb with hb; subst hb
+          obtain ⟨ih1, ih2⟩ := hexDecode_value rest r hr
+          have hlt : a * 16 + b' < 256 := by have := unhex_lt h a ha; have := unhex_lt l b' hl; omega
+          constructor
+          · intro init
+            simp only [List.foldl_cons, ha, hl, Option.getD_some, toUInt8_toNat _ hlt]
+            rw [ih1]
+            congr 1; omega
+          · simp only [List.length_cons]; omega
+
+/-- … and it succeeds exactly on an even number of hexadecimal digits -/
+theorem hexDecode_isSome : ∀ (s : Bytes), (hexDecode s).isSome = (s.length % 2 == 0 && s.all isHexChar)
+  | [] => rfl
+  | [c] => by simp [hexDecode]
+  | h :: l :: rest => by
+    have ih := hexDecode_isSome rest
+    unfold hexDecode
+    simp only [List.length_cons, List.all_cons, isHexChar]
+    have hm : (rest.length + 1 + 1) % 2 = rest.length % 2 := by omega
+    rw [hm]
+    cases ha : unhex h with
+    | none => simp
+    | some a =>
+      cases hl : unhex l with
+      | none => simp
+      | some b' =>
+        cases hr : hexDecode rest with
+        | none =>
+          rw [hr] at ih; simp only [Option.isSome_none] at ih
+          simp only [Option.isSome_none, Option.isSome_some, Bool.true_and]
+          exact ih
+        | some r =>
+          rw [hr] at ih; simp only [Option.isSome_some] at ih
+          simp only [Option.isSome_some, Bool.true_and]
+          exact ih
+
+theorem hexValue_zeros (k : Nat) : hexValue (List.replicate k 48) = 0 := by
+  unfold hexValue
+  induction k with
+  | zero => rfl
+  | succ k ih =>
+    rw [List.replicate_succ, List.foldl_cons]
+    have : (unhex 48).getD 0 = 0 := by decide
+    rw [this]; exact ih
+
+/-- C17 (hex timestamps): a hexadecimal string of at most 16 digits becomes the 8-byte big-endian encoding of its
+value; any other character is rejected -/
+theorem C17_hexts (ts : Bytes) (hl : ts.length ≤ 16) :
+    (ts.all isHexChar = true → ∃ b, parseHexTimestamp ts = .ok b ∧ b.length = 8 ∧ beValue b = hexValue ts) ∧
+    (ts.all isHexChar = false → parseHexTimestamp ts = .err .badHex) := by
+  have hplen : (List.replicate (16 - ts.length) 48 ++ ts).length = 16 := by simp; omega
+  have hall : (List.replicate (16 - ts.length) 48 ++ ts).all isHexChar = ts.all isHexChar := by
+    rw [List.all_append]
+    have : (List.replicate (16 - ts.length) (48 : UInt8)).all isHexChar = true := by
+      apply List.all_eq_true.mpr; intro c hc; have := List.eq_of_mem_replicate hc; subst this; decide
+    rw [this, Bool.true_and]
+  have hsome := hexDecode_isSome (List.replicate (16 - ts.length) 48 ++ ts)
+  rw [hplen, hall] at hsome
+  constructor
+  · intro h
+    rw [h] at hsome
+    obtain ⟨b, hb⟩ := Option.isSome_iff_exists.mp (by simpa using hsome)
+    obtain ⟨hv, hlen⟩ := hexDecode_value _ b hb
+    refine ⟨b, ?_, by rw [hplen] at hlen; omega, ?_⟩
+    · unfold parseHexTimestamp; simp only [hb]
+    · have := hv 0
+      unfold beValue
+      rw [this]
+      have happ := hexValue_append (List.replicate (16 - ts.length) 48) ts
+      unfold hexValue at happ
+      rw [happ]
+      have hz := hexValue_zeros (16 - ts.length)
+      unfold hexValue at hz
+      rw [hz]; unfold hexValue; omega
+  · intro h
+    rw [h] at hsome
+    have : hexDecode (List.replicate (16 - ts.length) 48 ++ ts) = none := by
+      cases hd : hexDecode (List.replicate (16 - ts.length) 48 ++ ts) with
+      | none => rfl
+      | some _ => rw [hd] at hsome; simp at hsome
+    unfold parseHexTimestamp; simp only [this]
+
+example : parseHexTimestamp [49, 51, 50, 100, 48, 98, 54] = .ok [0, 0, 0, 0, 0x01, 0x32, 0xd0, 0xb6] := by decide   -- "132d0b6"
+
+theorem hexOfNatAux_hex : ∀ (fuel n : Nat) (acc : Bytes), acc.all isHexChar = true → (hexOfNatAux fuel n acc).all isHexChar = true := by
+  intro fuel
+  induction fuel with
+  | zero => intro n acc h; exact h
+  | succ f ih =>
+    intro n acc h
+    unfold hexOfNatAux
+    split
+    · exact h
+    · apply ih
+      rw [List.all_cons, h, Bool.and_true]
+      unfold isHexChar
+      rw [unhex_hexDigitUpper _ (Nat.mod_lt _ (by omega))]; rfl
+
+theorem hexOfNat_hex (n : Nat) : (hexOfNat n).all isHexChar = true := by
+  unfold hexOfNat
+  split
+  · decide
+  · exact hexOfNatAux_hex _ _ [] rfl
+
+/-- C17 (numeric question, value form): the 128 challenge bytes are the hexadecimal numeral of the question's value,
+left-aligned — i.e. their big-endian value is `value · 16^(256 − number of hex digits)` -/
+theorem C17_question_value (q : Bytes) (hne : q ≠ []) (hd : q.all isDigitChar = true)
+    (hfit : (hexOfNat (decValue q)).length ≤ 256) :
+    ∃ b, parseDecimalChallenge q = .ok b ∧ b.length = 128 ∧
+      beValue b = decValue q * 16 ^ (256 - (hexOfNat (decValue q)).length) := by
+  rw [C17_question q hne hd]
+  have hplen : (hexOfNat (decValue q) ++ List.replicate (256 - (hexOfNat (decValue q)).length) 48).length = 256 := by simp; omega
+  have hall : (hexOfNat (decValue q) ++ List.replicate (256 - (hexOfNat (decValue q)).length) 48).all isHexChar = true := by
+    rw [List.all_append, hexOfNat_hex, Bool.true_and]
+    apply List.all_eq_true.mpr; intro c hc; have := List.eq_of_mem_replicate hc; subst this; decide
+  have hsome := hexDecode_isSome (hexOfNat (decValue q) ++ List.replicate (256 - (hexOfNat (decValue q)).length) 48)
+  rw [hplen, hall] at hsome
+  obtain ⟨b, hb⟩ := Option.isSome_iff_exists.mp (by simpa using hsome)
+  obtain ⟨hv, hlen⟩ := hexDecode_value _ b hb
+  refine ⟨b, by simp only [hb], by rw [hplen] at hlen; omega, ?_⟩
+  have := hv 0
+  unfold beValue
+  rw [this]
+  have happ := hexValue_append (hexOfNat (decValue q)) (List.replicate (256 - (hexOfNat (decValue q)).length) 48)
+  unfold hexValue at happ
+  rw [happ]
+  have hz := hexValue_zeros (256 - (hexOfNat (decValue q)).length)
+  have hn := C17_hexOfNat_value (decValue q)
+  unfold hexValue at hz hn
+  rw [hz, hn, List.length_replicate]; omega
+
+theorem hexFold_lt (s : Bytes) : ∀ init : Nat,
+    s.foldl (fun n c => n * 16 + (unhex c).getD 0) init < (init + 1) * 16 ^ s.length := by
+  induction s with
+  | nil => intro init; simp
+  | cons c t ih =>
+    intro init
+    rw [List.foldl_cons, List.length_cons, Nat.pow_succ]
+    have hd : (unhex c).getD 0 < 16 := by
+      cases h : unhex c with
+      | none => simp
+      | some v => simpa using unhex_lt c v h
+    calc t.foldl (fun n c => n * 16 + (unhex c).getD 0) (init * 16 + (unhex c).getD 0)
+        < (init * 16 + (unhex c).getD 0 + 1) * 16 ^ t.length := ih _
+      _ ≤ ((init + 1) * 16) * 16 ^ t.length := Nat.mul_le_mul_right _ (by omega)
+      _ = (init + 1) * (16 ^ t.length * 16) := by rw [Nat.mul_assoc, Nat.mul_comm 16]
+
+theorem hexValue_lt (s : Bytes) : hexValue s < 16 ^ s.length := by
+  have := hexFold_lt s 0
+  simpa [hexValue] using this
+
+/-- the value of the last `k` hexadecimal digits is the value modulo 16^k -/
+theorem hexValue_drop (s : Bytes) (k : Nat) (hk : k ≤ s.length) : hexValue (s.drop (s.length - k)) = hexValue s % 16 ^ k := by
+  have hsplit : s = s.take (s.length - k) ++ s.drop (s.length - k) := (List.take_append_drop _ _).symm
+  have hl : (s.drop (s.length - k)).length = k := by rw [List.length_drop]; omega
+  have h := hexValue_append (s.take (s.length - k)) (s.drop (s.length - k))
+  rw [← hsplit, hl] at h
+  have hlt := hexValue_lt (s.drop (s.length - k))
+  rw [hl] at hlt
+  rw [h, Nat.mul_comm, Nat.mul_add_mod, Nat.mod_eq_of_lt hlt]
+
+/-- C17 (`MustHexPadLeft`): for a hexadecimal numeral the helper returns exactly `size` bytes whose value is the numeral's
+value modulo 256^size — the rightmost digits are kept when the numeral is too long, zeros are added on the left when it is
+too short (an argument that is not a hexadecimal numeral makes this documented Must* helper panic) -/
+theorem C17_musthex (s : Bytes) (size : Nat) (hh : s.all isHexChar = true) :
+    ∃ b, mustHexPadLeft s (size : Int) = .ok b ∧ b.length = size ∧ beValue b = hexValue s % 16 ^ (2 * size) := by
+  unfold mustHexPadLeft leftPadHex
+  have hw : ((size : Int) * 2).toNat = 2 * size := by omega
+  by_cases hlen : (s.length : Int) ≥ (size : Int) * 2
+  · rw [if_pos hlen, if_neg (by omega)]
+    simp only [hw]
+    have hk : 2 * size ≤ s.length := by omega
+    have hl : (s.drop (s.length - 2 * size)).length = 2 * size := by rw [List.length_drop]; omega
+    have hall : (s.drop (s.length - 2 * size)).all isHexChar = true := by
+      apply List.all_eq_true.mpr; intro c hc
+      exact List.all_eq_true.mp hh c (List.mem_of_mem_drop hc)
+    have hsome := hexDecode_isSome (s.drop (s.length - 2 * size))
+    rw [hl, hall] at hsome
+    obtain ⟨b, hb⟩ := Option.isSome_iff_exists.mp (by simpa using hsome)
+    obtain ⟨hv, hbl⟩ := hexDecode_value _ b hb
+    refine ⟨b, by simp only [hb], by rw [hl] at hbl; omega, ?_⟩
+    have := hv 0
+    unfold beValue; rw [this]
+    exact hexValue_drop s (2 * size) hk
+  · rw [if_neg hlen]
+    simp only [hw]
+    have hl : (List.replicate (2 * size - s.length) 48 ++ s).length = 2 * size := by simp; omega
+    have hall : (List.replicate (2 * size - s.length) 48 ++ s).all isHexChar = true := by
+      rw [List.all_append, hh, Bool.and_true]
+      apply List.all_eq_true.mpr; intro c hc; have := List.eq_of_mem_replicate hc; subst this; decide
+    have hsome := hexDecode_isSome (List.replicate (2 * size - s.length) 48 ++ s)
+    rw [hl, hall] at hsome
+    obtain ⟨b, hb⟩ := Option.isSome_iff_exists.mp (by simpa using hsome)
+    obtain ⟨hv, hbl⟩ := hexDecode_value _ b hb
+    refine ⟨b, by simp only [hb], by rw [hl] at hbl; omega, ?_⟩
+    have := hv 0
+    unfold beValue; rw [this]
+    have happ := hexValue_append (List.replicate (2 * size - s.length) 48) s
+    unfold hexValue at happ
+    rw [happ]
+    have hz := hexValue_zeros (2 * size - s.length)
+    unfold hexValue at hz
+    rw [hz]
+    have hlt := hexValue_lt s
+    have hpow : 16 ^ s.length ≤ 16 ^ (2 * size) := Nat.pow_le_pow_right (by omega) (by omega)
+    unfold hexValue at hlt ⊢
+    rw [Nat.mod_eq_of_lt (by omega)]; omega
+
 -- non-vacuity / RFC 6287 examples: "12345678" ↦ BC614E followed by zeros
 example : hexOfNat 12345678 = [66, 67, 54, 49, 52, 69] := by decide
 set_option maxRecDepth 4096 in
@@ -180,3 +418,8 @@ end OtpVerif.Props.C17
 #print axioms OtpVerif.Props.C17.C17_hexOfNat_value
 #print axioms OtpVerif.Props.C17.C17_question
 #print axioms OtpVerif.Props.C17.C17_end2end
+#print axioms OtpVerif.Props.C17.C17_hexts
+#print axioms OtpVerif.Props.C17.C17_question_value
+#print axioms OtpVerif.Props.C17.hexDecode_value
+#print axioms OtpVerif.Props.C17.hexDecode_isSome
+#print axioms OtpVerif.Props.C17.C17_musthex
